@@ -1,6 +1,7 @@
 from dataclasses import dataclass, field
 import importlib.util
 import os
+import re
 import sys
 from typing import Any, Dict
 
@@ -93,7 +94,13 @@ class TemplateBase:
         try:
             return self.j2template.render(**context)
         except SecurityError as e:
-            raise SigmaSecurityError(f"Template attempted a forbidden operation: {e}") from e
+            # The sandbox names a refused callable by its representation, which for a bound method
+            # contains the whole object (a rule with all its detections): name the method only.
+            message = str(e)
+            method = re.match(r"<(?:bound method|built-in method|function) ([\w.<>]+)", message)
+            if method is not None and message.endswith("is not safely callable"):
+                message = f"{method.group(1)} is not safely callable"
+            raise SigmaSecurityError(f"Template attempted a forbidden operation: {message}") from e
 
     def _vars_execution_allowed(self) -> bool:
         """Check if vars execution is allowed via parameter or environment variable."""
